@@ -41,6 +41,115 @@ pub struct Port {
     pub relation_port: bool,
 }
 
+/// Ports read from the FINAL preprocessed matrices of the Const / Public / ALU AIRs built by
+/// the real `get_airs_and_degrees_with_prep` for `packing` — i.e. after lane packing and
+/// packed-Horner scheduling. Layout (alu_columns.rs): per lane 13 columns
+/// [mult_a, sel_add, sel_bool, sel_muladd, sel_horner, a_idx, b_idx, c_idx, out_idx, mult_b,
+/// mult_out, a_is_reader, c_is_reader]; then (k-1) arity selectors and (k-1) step blocks
+/// [a_idx, c_idx, a_reader, c_reader, lookup_mult_a, lookup_mult_c]. Const/Public: per lane
+/// [mult, idx]. `Err` = layout not understood (machinery error for the caller).
+pub fn ports_from_matrices(circuit: &Circuit<F>, packing: &TablePacking) -> Result<Vec<Port>, String> {
+    use p3_air::BaseAir;
+    use p3_circuit_prover::common::CircuitTableAir;
+    use p3_matrix::Matrix;
+    let ad = match quiet_catch(|| {
+        get_airs_and_degrees_with_prep::<BabyBearConfig, _, 1>(circuit, packing, &[], &[], ConstraintProfile::Standard)
+            .map(|(ad, _, _)| ad)
+            .map_err(|e| format!("prep:{e:?}"))
+    }) {
+        Ok(Ok(x)) => x,
+        Ok(Err(e)) => return Err(e),
+        Err(p) => return Err(format!("prep:panic: {p}")),
+    };
+    let k = packing.horner_packed_steps();
+    let mut out = vec![];
+    for (air, _) in &ad {
+        match air {
+            CircuitTableAir::Const(a) => {
+                if let Some(m) = a.preprocessed_trace() {
+                    if m.width() != 2 {
+                        return Err(format!("layout: const prep width {}", m.width()));
+                    }
+                    for r in 0..m.height() {
+                        let row = m.row_slice(r).unwrap();
+                        let mult = signed(row[0]);
+                        out.push(Port { role: "const", kind: None, op_index: r, slot: row[1].as_canonical_u64(), mult, relation_port: true });
+                    }
+                }
+            }
+            CircuitTableAir::Public(a) => {
+                if let Some(m) = a.preprocessed_trace() {
+                    if m.width() % 2 != 0 {
+                        return Err(format!("layout: public prep width {}", m.width()));
+                    }
+                    for r in 0..m.height() {
+                        let row = m.row_slice(r).unwrap();
+                        for l in 0..m.width() / 2 {
+                            out.push(Port { role: "public", kind: None, op_index: r * 8 + l, slot: row[2 * l + 1].as_canonical_u64(), mult: signed(row[2 * l]), relation_port: true });
+                        }
+                    }
+                }
+            }
+            CircuitTableAir::Alu(a) => {
+                let Some(m) = a.preprocessed_trace() else { continue };
+                let extra = 7 * (k - 1);
+                if m.width() < extra + 13 || (m.width() - extra) % 13 != 0 {
+                    return Err(format!("layout: alu prep width {} with k={k}", m.width()));
+                }
+                let lanes = (m.width() - extra) / 13;
+                for r in 0..m.height() {
+                    let row = m.row_slice(r).unwrap();
+                    for l in 0..lanes {
+                        let c = &row[l * 13..(l + 1) * 13];
+                        let mult_a = signed(c[0]);
+                        if mult_a == 0 {
+                            // inactive lane: must not interact at all
+                            for (j, name) in [(9usize, "alu.b"), (10, "alu.out")] {
+                                if signed(c[j]) != 0 {
+                                    out.push(Port { role: if name == "alu.b" { "alu.b" } else { "alu.out" }, kind: None, op_index: r * 8 + l, slot: c[if j == 9 { 6 } else { 8 }].as_canonical_u64(), mult: signed(c[j]), relation_port: false });
+                                }
+                            }
+                            continue;
+                        }
+                        let (sel_add, sel_bool, sel_muladd, sel_horner) = (signed(c[1]), signed(c[2]), signed(c[3]), signed(c[4]));
+                        let kind = if sel_add == 1 {
+                            AluOpKind::Add
+                        } else if sel_bool == 1 {
+                            AluOpKind::BoolCheck
+                        } else if sel_muladd == 1 {
+                            AluOpKind::MulAdd
+                        } else if sel_horner == 1 {
+                            AluOpKind::HornerAcc
+                        } else {
+                            AluOpKind::Mul
+                        };
+                        let uses_c = matches!(kind, AluOpKind::MulAdd | AluOpKind::HornerAcc);
+                        let is_bool = kind == AluOpKind::BoolCheck;
+                        let id = r * 8 + l;
+                        out.push(Port { role: "alu.a", kind: Some(kind), op_index: id, slot: c[5].as_canonical_u64(), mult: mult_a * signed(c[11]), relation_port: true });
+                        out.push(Port { role: "alu.b", kind: Some(kind), op_index: id, slot: c[6].as_canonical_u64(), mult: signed(c[9]), relation_port: !is_bool });
+                        out.push(Port { role: "alu.c", kind: Some(kind), op_index: id, slot: c[7].as_canonical_u64(), mult: mult_a * signed(c[12]), relation_port: uses_c });
+                        out.push(Port { role: "alu.out", kind: Some(kind), op_index: id, slot: c[8].as_canonical_u64(), mult: signed(c[10]), relation_port: true });
+                    }
+                    // packed-Horner step blocks of this row
+                    let e = &row[lanes * 13..];
+                    let packed_k = (2..=k).find(|kk| signed(e[kk - 2]) == 1);
+                    if let Some(pk) = packed_k {
+                        for t in 1..pk {
+                            let b = &e[(k - 1) + 6 * (t - 1)..(k - 1) + 6 * t];
+                            let id = r * 8; // lane 0
+                            out.push(Port { role: "alu.a", kind: Some(AluOpKind::HornerAcc), op_index: id + 1000 * t, slot: b[0].as_canonical_u64(), mult: signed(b[4]), relation_port: true });
+                            out.push(Port { role: "alu.c", kind: Some(AluOpKind::HornerAcc), op_index: id + 1000 * t, slot: b[1].as_canonical_u64(), mult: signed(b[5]), relation_port: true });
+                        }
+                    }
+                }
+            }
+            CircuitTableAir::Dynamic(_) => return Err("layout: non-primitive table".into()),
+        }
+    }
+    Ok(out)
+}
+
 pub fn prepare(circuit: &Circuit<F>) -> Result<Vec<Vec<F>>, String> {
     match quiet_catch(|| {
         get_airs_and_degrees_with_prep::<BabyBearConfig, _, 1>(
@@ -177,10 +286,12 @@ pub fn audit(ps: &[Port], sources: &BTreeMap<u64, Vec<char>>) -> Vec<BusFinding>
     };
     let mut out = vec![];
     for (slot, v) in &by_slot {
-        let readers: Vec<&&Port> = v.iter().filter(|p| p.mult == -1).collect();
+        let readers: Vec<&&Port> = v.iter().filter(|p| p.mult < 0).collect();
+        let n_reads: i64 = readers.iter().map(|p| -p.mult).sum();
         // a port with multiplicity 0 neither reads nor creates
-        let creators: Vec<&&Port> = v.iter().filter(|p| p.mult > 0 || (p.mult == 0 && matches!(p.role, "const" | "public"))).collect();
-        let odd: Vec<&&Port> = v.iter().filter(|p| p.mult < -1).collect();
+        let creators: Vec<&&Port> = v.iter().filter(|p| p.mult > 0).collect();
+        // a packed Horner row reads `b` once per packed step (multiplicity -k): legitimate
+        let odd: Vec<&&Port> = v.iter().filter(|p| p.mult < -1 && !(p.role == "alu.b" && p.kind == Some(AluOpKind::HornerAcc))).collect();
         let roles = |xs: &Vec<&&Port>| {
             let mut r: Vec<String> = xs.iter().map(|p| p.role.to_string()).collect();
             r.sort();
@@ -197,11 +308,11 @@ pub fn audit(ps: &[Port], sources: &BTreeMap<u64, Vec<char>>) -> Vec<BusFinding>
                 detail: format!("slot {slot}: {} reader port(s), creator ports {:?}; all {show:?}", readers.len(), creators.iter().map(|p| (p.role, p.op_index, p.mult)).collect::<Vec<_>>()),
                 unbalanced: net != 0,
             });
-        } else if !readers.is_empty() && creators[0].mult != readers.len() as i64 {
+        } else if !readers.is_empty() && creators[0].mult != n_reads {
             out.push(BusFinding {
                 clause: format!("creator_mult_mismatch:{}", creators[0].role),
                 features: features(*slot),
-                detail: format!("slot {slot}: creator {} #{} has multiplicity {} but {} reader port(s); all {show:?}", creators[0].role, creators[0].op_index, creators[0].mult, readers.len()),
+                detail: format!("slot {slot}: creator {} #{} has multiplicity {} but {} read(s); all {show:?}", creators[0].role, creators[0].op_index, creators[0].mult, n_reads),
                 unbalanced: net != 0,
             });
         } else if net != 0 {
